@@ -2,7 +2,7 @@
 (* (A) for every valid matching between small maps (non-zero first query label, trailing length after the   *)
 (* last label, one-decimal coordinates, both strands) the record computed the way AlignmentResultRow.create  *)
 (* + getPositionsWithSiteIds + the writer compute it satisfies the declarative C01 / C02 / C03 clauses.       *)
-EXTENDS Xmap
+EXTENDS Xmap, Json
 
 CONSTANTS NR, NQ, RefCoords, QryCoords
 
@@ -21,4 +21,8 @@ RecImpl == LET h == HeaderImpl(ref, qry, pairs, rev) IN
 Inv_C01 == RowM!Done => C01_Record_Failed(ref, qry, RecImpl) = {}
 Inv_C02 == RowM!Done => C02_Record_Failed(ref, qry, RecImpl, 1) = {}
 Inv_C03 == RowM!Done => RowM!C03_Holds(pairs, rev, RecImpl.hit)
+\* (B) every (maps, matching, strand) of this space, printed once: the harness builds the REAL row
+\* (AlignmentResultRow.create), writes it with the real XMAP writer and reads it back (C18, C02)
+ExportInv == PrintT("X" \o ToJson([ref |-> ref, qry |-> qry, pairs |-> pairs, rev |-> rev]))
+ExportStop == TLCGet("level") <= 1
 =============================================================================
